@@ -3,13 +3,16 @@ package cmd
 import (
 	"fmt"
 	"os"
+	"strings"
 
 	"github.com/spf13/cobra"
 
 	"github.com/ajitpratap0/GoSQLX/cmd/gosqlx/internal/config"
 	"github.com/ajitpratap0/GoSQLX/cmd/gosqlx/internal/output"
+	"github.com/ajitpratap0/GoSQLX/pkg/sql/ast"
 	"github.com/ajitpratap0/GoSQLX/pkg/sql/keywords"
 	"github.com/ajitpratap0/GoSQLX/pkg/sql/parser"
+	"github.com/ajitpratap0/GoSQLX/pkg/sql/tokenizer"
 )
 
 var (
@@ -271,7 +274,9 @@ func validateFromStdin(cmd *cobra.Command) error {
 // Uses the fast-path Validate() which skips full AST construction (#274).
 func validateInlineSQL(cmd *cobra.Command, sql string) error {
 	var err error
-	if validateDialect != "" {
+	if validateStrict {
+		err = validateInlineStrict(sql, validateDialect)
+	} else if validateDialect != "" {
 		err = parser.ValidateWithDialect(sql, keywords.SQLDialect(validateDialect))
 	} else {
 		err = parser.Validate(sql)
@@ -293,6 +298,31 @@ func validateInlineSQL(cmd *cobra.Command, sql string) error {
 	if !validateQuiet {
 		fmt.Fprintln(cmd.OutOrStdout(), "✓ Valid SQL")
 	}
+	return nil
+}
+
+// validateInlineStrict validates inline SQL with the parser in strict mode
+// (--strict), which the fast-path Validate() helpers do not offer.
+func validateInlineStrict(sql string, dialect string) error {
+	if strings.TrimSpace(sql) == "" {
+		return nil
+	}
+	tkz := tokenizer.GetTokenizer()
+	defer tokenizer.PutTokenizer(tkz)
+	if dialect != "" {
+		tkz.SetDialect(keywords.SQLDialect(dialect))
+	}
+	tokens, err := tkz.Tokenize([]byte(sql))
+	if err != nil {
+		return fmt.Errorf("tokenization error: %w", err)
+	}
+	p := parser.NewParser(parser.WithDialect(dialect), parser.WithStrictMode())
+	defer p.Release()
+	astObj, err := p.ParseFromModelTokens(tokens)
+	if err != nil {
+		return err
+	}
+	ast.ReleaseAST(astObj)
 	return nil
 }
 
